@@ -98,15 +98,32 @@ class _Sym:
     def __repr__(self):
         return f'<{self.name}>'
 
+    def __eq__(self, o):
+        return isinstance(o, _Sym) and o.name == self.name
+
+    def __hash__(self):
+        return hash(self.name)
+
 
 def _show(v):
     return v.name if isinstance(v, _Sym) else repr(v)
 
 
 class _ClassEval(Mini):
-    """Mini + identity tests against None / named symbols (`cls is None`)."""
+    """Mini + identity tests against None / named symbols (`cls is None`); formatted strings are named symbols (equal text = equal
+    value for equal arguments); module-level containers are real dicts shared between the calls of one history."""
+
+    def ev(self, e):
+        if isinstance(e, ast.JoinedStr):
+            return _Sym(u(e))
+        return super().ev(e)
 
     def truth(self, v):
+        if isinstance(v, (dict, list, tuple)):
+            return bool(v)
+        return self._truth(v)
+
+    def _truth(self, v):
         if isinstance(v, _Sym):
             if v.truthy is None:
                 raise Undecided(f'truth value of {v.name} is not known')
@@ -125,7 +142,16 @@ class _ClassEval(Mini):
         return super().compare(op, l, r, node)
 
 
-def _run_sessionmaker(m, fs, params):
+def _module_state_names(fs):
+    """Module-level names bound to a mutable container (a cache / registry a function could consult)."""
+    out = set()
+    for name, v in fs.module.assigns.items():
+        if isinstance(v, (ast.Dict, ast.List, ast.Set)) or (isinstance(v, ast.Call) and u(v.func) in ('dict', 'list', 'set', 'OrderedDict', 'collections.OrderedDict', 'defaultdict', 'WeakValueDictionary', 'weakref.WeakValueDictionary')):
+            out.add(name)
+    return out
+
+
+def _run_sessionmaker(m, fs, params, state=None):
     """Execute file_sessionmaker's body with the given parameter values. -> ([(call node, class_ value, token)], returned value).
     Every call yields an opaque token; `sessionmaker(...)` calls are recorded with the VALUE of their class_ argument."""
     made = []
@@ -140,15 +166,24 @@ def _run_sessionmaker(m, fs, params):
         return tok
     env = {p: Opaque(p) for p in fs.params()}
     a = fs.node.args
-    for extra in (a.vararg, a.kwarg):
-        if extra is not None:
-            env[extra.arg] = Opaque(extra.arg)
+    if a.vararg is not None:
+        env[a.vararg.arg] = ()
+    if a.kwarg is not None:
+        env[a.kwarg.arg] = {}        # the call sites of the package pass no extra session options (checked below)
     env.update(params)
-    local = {t.id for s in stmts_in(fs.node.body) for tt in assigned_targets(s) for t in ast.walk(tt) if isinstance(t, ast.Name)}
+    local = {t.id for s in stmts_in(fs.node.body) for tt in assigned_targets(s) for t in ast.walk(tt) if isinstance(t, ast.Name) and isinstance(t.ctx, ast.Store)}
+    state = {} if state is None else state
+    shared = _module_state_names(fs)
     for n in ast.walk(fs.node):
-        if isinstance(n, ast.Name) and isinstance(n.ctx, ast.Load) and n.id not in env and n.id not in local:
-            env[n.id] = _Sym(m.resolve(fs.module, n) or n.id)
-    mi = _ClassEval(env, on_call=on_call)
+        if isinstance(n, ast.Name) and n.id not in env and n.id not in local:
+            env[n.id] = state.setdefault(n.id, {}) if n.id in shared else _Sym(m.resolve(fs.module, n) or n.id)
+
+    def on_store(mi, target, idx, value):
+        base = mi.ev(target.value)
+        if not isinstance(base, dict):
+            raise Undecided(f'store into {u(target)}')
+        base[idx] = value
+    mi = _ClassEval(env, on_call=on_call, on_subscript_store=on_store)
     ret = None
     try:
         mi.run(fs.node.body)
@@ -201,6 +236,16 @@ def check_session(ctx):
     oks = all(v[0] == ['<explicit cls>'] for k, v in table.items() if k[0] == 'explicit') and all(v[1] for v in table.values())
     rep.add('W2', fs.site(sm_site), 'the sessionmaker is built with that class (an explicit class is passed through) and is what the function returns', oks, expected='one sessionmaker(engine, class_=<chosen class>, **kw), returned',
             found={f'cls={k[0]},readonly={k[1]}': v for k, v in table.items()}, stmt='sessionmaker class')
+    # the class does not depend on what was asked before (a cache keyed without the class / mode would hand a writable maker to a default caller)
+    hist = {}
+    for first in ((explicit, True), (explicit, False), (None, False)):
+        st = {}
+        made1, _ = _run_sessionmaker(m, fs, {'cls': first[0], 'readonly': first[1]}, state=st)
+        made2, ret2 = _run_sessionmaker(m, fs, {'cls': None, 'readonly': True}, state=st)
+        cls_of = [v for _, v, t in made1 + made2 if t is ret2]
+        hist[f"after cls={'None' if first[0] is None else 'explicit'},readonly={first[1]}"] = [_show(v) for v in cls_of] or ['<not a sessionmaker built here>']
+    rep.add('W2', fs.site(sm_site), 'the default (read-only) sessionmaker does not depend on earlier calls for the same file', all(v == [ro_name] for v in hist.values()), expected=f'{ro_name} whatever was requested before',
+            found=hist, stmt='history independence')
     # every construction of sessions in the package
     n_sites = 0
     for fi, call in m.iter_calls(kinds=('py',)):
@@ -403,6 +448,12 @@ _C = 'src/gambit/cli/common.py'
 _R = 'src/gambit/db/refdb.py'
 _FS_OLD = "\tif cls is None:\n\t\tcls = ReadOnlySession if readonly else Session\n\tengine = create_engine(f'sqlite:///{os.fspath(path)}')\n\treturn sessionmaker(engine, class_=cls, **kw)"
 VARIANTS = [
+    V('sessionmaker cache keyed without the session class (seeded C18c)', 'B', 'src/gambit/db/sqla.py', "\tengine = create_engine(f'sqlite:///{os.fspath(path)}')\n\treturn sessionmaker(engine, class_=cls, **kw)\n",
+      "\turl = f'sqlite:///{os.fspath(path)}'\n\tif kw:\n\t\treturn sessionmaker(create_engine(url), class_=cls, **kw)\n\tkey = (url, readonly)\n\tif key not in _SM:\n\t\t_SM[key] = sessionmaker(create_engine(url), class_=cls)\n\treturn _SM[key]\n", 'W2',
+      also=(('src/gambit/db/sqla.py', "def file_sessionmaker(", "_SM = {}\n\n\ndef file_sessionmaker("),)),
+    V('E: sessionmaker cache keyed with mode and class', 'E', 'src/gambit/db/sqla.py', "\tengine = create_engine(f'sqlite:///{os.fspath(path)}')\n\treturn sessionmaker(engine, class_=cls, **kw)\n",
+      "\turl = f'sqlite:///{os.fspath(path)}'\n\tif kw:\n\t\treturn sessionmaker(create_engine(url), class_=cls, **kw)\n\tkey = (url, readonly, cls)\n\tif key not in _SM:\n\t\t_SM[key] = sessionmaker(create_engine(url), class_=cls)\n\treturn _SM[key]\n",
+      also=(('src/gambit/db/sqla.py', "def file_sessionmaker(", "_SM = {}\n\n\ndef file_sessionmaker("),)),
     V('flush delegates to the base class', 'B', _S, "\t\t# Make flush a no-op\n\t\tpass", "\t\tsuper().flush(*args, **kwargs)", 'W1'),
     V('commit raises only when dirty', 'B', _S, "\t\traise TypeError('Session is read-only')", "\t\tif self.dirty:\n\t\t\traise TypeError('Session is read-only')", 'W1'),
     V('readonly default False', 'B', _S, "readonly: bool = True", "readonly: bool = False", 'W2'),
